@@ -381,6 +381,10 @@ func (b *Billet) GetFromStore(h util.Uint256) (Node, error) {
 	if r.Err != nil {
 		return nil, r.Err
 	}
+	if typ := n.Node.Type(); typ == HashT || typ == EmptyT {
+		// These are valid as children only, never as a stored node.
+		return nil, fmt.Errorf("unexpected node type %d in the storage", typ)
+	}
 
 	if b.mode.RC() {
 		data = data[:len(data)-5]
